@@ -90,11 +90,51 @@ def generate(ctx, escalate=False):
                 for _ in range(rng.choice([1, 1, 2, 3, 4])):
                     b = G.mutate(rng, b)
         out.append("hparse %s %d %s" % (proto, lvl, hx(b)))
-    out += gen_sequences(ctx, (6000 if ctx.thorough() else 600) * (2 if escalate else 1))
+    out += gen_sequences(ctx, (12000 if ctx.thorough() else 1500) * (2 if escalate else 1))
     return out
 
 
-SCENARIOS = ["idle", "obs", "blk", "blk0", "cli"]
+SCENARIOS = ["idle", "obs", "blk", "blk0", "cli", "b2", "b2"]
+
+
+def proxyish(rng):
+    """a Proxy-Uri value assembled from URI parts, each in well-formed and broken variants (unterminated IPv6 reference,
+    empty / overlong / non-numeric port, scheme prefixes), then possibly cut anywhere: the server parses it in place in the
+    PDU buffer, and as the LAST bytes of the datagram nothing but the end of the buffer follows it"""
+    scheme = rng.choice([b"coap", b"coap", b"coaps", b"coap+tcp", b"coap+ws", b"http", b"coa", b"coapx", b"", b"COAP"])
+    sep = rng.choice([b"://", b"://", b"://", b":/", b":", b"//", b""])
+    host = rng.choice([b"myhost", b"myhost", b"other", b"[::1]", b"[::1", b"[", b"[]", b"[::1]x", b"[::1]]", b"[[::1]", b"1.2.3.4", b"",
+                       b"my%68ost", b"MYHOST", b"[fe80::1%25eth0]", b"a" * rng.randint(1, 40)])
+    port = rng.choice([b"", b"", b"", b":", b":0", b":5683", b":65535", b":65536", b":99999999999999999999", b":5x", b":-1", b": 1"])
+    tail = rng.choice([b"", b"", b"/", b"/r", b"/r?a=b", b"?", b"?a", b"/%", b"/%4", b"/%zz", b"/a/../b", b"/.", b"/..", b"#f", b"/r#"]) \
+        if rng.random() < 0.8 else b"/" + uriish(rng)
+    v = scheme + sep + host + port + tail
+    if rng.random() < 0.3:
+        v = v[:rng.randint(0, len(v))]
+    return v
+
+
+def block2_get(rng, scen):
+    """GET with a Block2 option aimed at the ends of the bodies the server serves block-wise itself: /L (100 bytes: blocks 0..6
+    of 16, the last one partial), /.well-known/core (a listing of some 40 bytes), and the plain resources"""
+    path = rng.choice([[b"L"], [b"L"], [b"L"], [b".well-known", b"core"], [b".well-known", b"core"], [b"r"], [b"o"], [b"x"]])
+    szx = rng.choice([0, 0, 0, 0, 1, 2, 3, 6, 7])
+    bs = 16 << min(szx, 6)
+    edge = (100 + bs - 1) // bs
+    num = rng.choice([0, 1, 2, 3, edge - 1, edge, edge, edge + 1, 6, 7, 7, 8, 63, 2 ** 20 - 1])
+    m = rng.choice([0, 0, 0, 1])
+    v = num << 4 | m << 3 | szx
+    blk = v.to_bytes(3, "big").lstrip(b"\0")
+    opts = [(11, seg) for seg in path] + [(rng.choice([23, 23, 23, 23, 31]), blk)]
+    if rng.random() < 0.15:
+        opts.append((15, uriish(rng)))
+    if rng.random() < 0.1:
+        opts.append((28, G.rbytes(rng, rng.randint(0, 3))))
+    if rng.random() < 0.1:
+        opts.append((6, G.rbytes(rng, rng.randint(0, 2))))
+    opts.sort(key=lambda o: o[0])
+    tok = rng.choice([b"\xab\xcd", b"\xab\xcd", b"\xab\xcd", b"", G.rbytes(rng, rng.randint(1, 8))])
+    return G.encode("udp", rng.choice([0, 0, 1]), rng.choice([1, 1, 1, 5]), rng.randint(0x1001, 0x1100), tok, opts, b"")
 
 
 def oscore_value(rng):
@@ -163,6 +203,17 @@ def targeted(rng, scen):
             opts += [(15, uriish(rng)) for _ in range(rng.randint(1, 3))]     # several Uri-Query options: the reconstructed query string
         if rng.random() < 0.15:
             opts.append((rng.choice([2, 10, 13, 29, 65001, 65535]), G.rbytes(rng, rng.randint(0, 4))))   # unknown, some critical
+    if scen != "cli" and rng.random() < (0.5 if scen == "b2" else 0.12):
+        return block2_get(rng, scen)
+    if scen != "cli" and rng.random() < 0.12:
+        # a request to be proxied: Proxy-Uri (35) as the last option, mostly without payload; sometimes Proxy-Scheme (39) + Uri-Host
+        opts = [(35, proxyish(rng))] if rng.random() < 0.8 else [(3, rng.choice([b"myhost", b"other", b"", uriish(rng)])), (39, rng.choice([b"coap", b"http", b"", uriish(rng)]))]
+        if rng.random() < 0.2:
+            opts.append((16, G.rbytes(rng, rng.randint(0, 2))))
+        if rng.random() < 0.15:
+            opts.append((11, rng.choice([b"r", b"x"])))
+        opts.sort(key=lambda o: o[0])
+        return G.encode("udp", rng.choice([0, 0, 1]), rng.choice([1, 1, 2, 3, 4, 5, 6, 7]), mid, tok, opts, b"" if rng.random() < 0.85 else G.rbytes(rng, 3))
     if scen != "cli" and rng.random() < 0.25:
         # a block-wise request the way a peer would really send it (with or without Size1): NUM, M, SZX chosen freely
         szx = rng.choice([0, 0, 1, 2, 6, 7])
